@@ -428,6 +428,10 @@ class HasherModel:
             self.buf = b""
             self.off = 0
             return "ok", ({"count": 0} if o == "t_reset" else {})
+        if o == "clone_from_other":
+            # `other.clone_from(&h)` into a hasher with another mode, offset and history, then continue on `other`: an
+            # equal, independent copy (std: a.clone_from(&b) is a = b.clone()); seeded change C09-15
+            return "ok", {"count": len(self.buf)}
         if o == "pure_check":
             if self.off != 0:
                 return "panic", "finalize after set_input_offset(nonzero)"
@@ -1046,6 +1050,13 @@ def fam_hazmat_ops(rng):
          {"op": "finalize_non_root"}],
         [{"op": "update", "a": 0, "b": 0}, {"op": "count"}, {"op": "update", "a": 0, "b": 1024}, {"op": "update", "a": 0, "b": 0},
          {"op": "update", "a": 1024, "b": 1025}, {"op": "count"}, {"op": "finalize"}],
+        # a copy made by clone_from (into a hasher positioned elsewhere, with other input) continues identically
+        [{"op": "set_input_offset", "v": 2048}, {"op": "update", "a": 0, "b": 1000}, {"op": "clone_from_other"},
+         {"op": "update", "a": 1000, "b": 2048}, {"op": "count"}, {"op": "finalize_non_root"}],
+        [{"op": "set_input_offset", "v": 1 << 63}, {"op": "update", "a": 0, "b": 3000}, {"op": "clone_from_other"}, {"op": "count"},
+         {"op": "finalize_non_root"}],
+        [{"op": "update", "a": 0, "b": 3000}, {"op": "clone_from_other"}, {"op": "update", "a": 3000, "b": 5000}, {"op": "count"},
+         {"op": "finalize"}],
         # documented panics
         [{"op": "set_input_offset", "v": 1}],
         [{"op": "update", "a": 0, "b": 1}, {"op": "set_input_offset", "v": 0}],
@@ -1381,6 +1392,7 @@ TABLE = [
     (r"^crate::hazmat::", ["hazmat_ops", "hazmat_tree", "hazmat_fn", "reset"], GENERAL, ()),
     (r"^crate::OutputReader::|Hasher::finalize_xof|^crate::Output::root_output_block", ["xof", "incremental"],
      GENERAL, ()),
+    (r"^crate::Hasher::(clone|clone_from)", ["hazmat_ops", "incremental", "reset"], GENERAL, ()),
     (r"^crate::Hasher::reset", ["reset", "traits", "incremental"], GENERAL, ()),
     (r"^crate::Hasher::(count|new|new_keyed|new_derive_key|new_internal|default)", ["incremental", "reset", "hazmat_ops"],
      GENERAL, ()),
